@@ -271,3 +271,38 @@ func Field(root any, path ...string) reflect.Value {
 	}
 	return v
 }
+
+// HeldLocks try-locks every mutex that is a direct field of the struct root points to (whatever its type: sync's
+// or the scheduler shim's) and returns the names of those that are held. In a sequential harness, between two
+// calls, nobody is running: a held lock stays held for ever and every later call that needs it never returns.
+func HeldLocks(root any) []string {
+	v := reflect.ValueOf(root)
+	for v.Kind() == reflect.Ptr || v.Kind() == reflect.Interface {
+		if v.IsNil() {
+			return nil
+		}
+		v = v.Elem()
+	}
+	if v.Kind() != reflect.Struct || !v.CanAddr() {
+		return nil
+	}
+	var held []string
+	for i := 0; i < v.NumField(); i++ {
+		f := v.Field(i)
+		if f.Kind() != reflect.Struct {
+			continue
+		}
+		p := reflect.NewAt(f.Type(), unsafe.Pointer(f.UnsafeAddr())).Interface()
+		if m, ok := p.(interface {
+			TryLock() bool
+			Unlock()
+		}); ok {
+			if m.TryLock() {
+				m.Unlock()
+			} else {
+				held = append(held, v.Type().Field(i).Name)
+			}
+		}
+	}
+	return held
+}
